@@ -4,6 +4,7 @@ import re
 from pyvc.contracts import contract, REGISTRY
 from pyvc.shapes import *
 from specs.dwarf import StructsT
+from specs.die import has_top
 from specs.lists import (gaddr, word_at_addr, offset_word, is_kind, rnglist_at, loclist_at, has_base, base_of, loc_off, u16_at,
                          block_off, lst_off, view_off, uleb_at, uleb_end, hdr_field, LOCLIST_ATTRS, BLOCK_FORMS)
 from contracts.c07_lists import (R, L, RLT, LLT, CUArg, RElemT, LElemT, RangeEntryT, RBaseT)
@@ -106,7 +107,8 @@ class get_base_offset:
     modifies = ["*rep"]
     params = dict(cu=CUArg, base_attribute_name=OneOf(*BASES))
     returns = Nat
-    ensures = ["has_base(cu, base_attribute_name)", "result == base_of(cu, base_attribute_name)"]
+    ensures = ["has_base(cu, base_attribute_name)", "result == base_of(cu, base_attribute_name)",
+               "not old(has_top(cu)) or cu.dwarfinfo.debug_info_sec.stream.pos == old(cu.dwarfinfo.debug_info_sec.stream.pos)", "not old(has_top(cu)) or has_top(cu)"]
     may_raise = ["ELFParseError", "OverflowError", "DWARFError", "KeyError"]
 
 
@@ -120,7 +122,7 @@ class resolve_via_offset_table:
     ensures = ["has_base(cu, base_attribute_name)",
                "result == base_of(cu, base_attribute_name) + offset_word(stream.B, base_of(cu, base_attribute_name)"
                " + index * (4 if cu.structs.dwarf_format == 32 else 8), cu.structs.dwarf_format)",
-               "stream.pos == old(stream.pos)"]
+               "stream.pos == old(stream.pos)", "not old(has_top(cu)) or cu.dwarfinfo.debug_info_sec.stream.pos == old(cu.dwarfinfo.debug_info_sec.stream.pos)", "not old(has_top(cu)) or has_top(cu)"]
     may_raise = ["ELFParseError", "OverflowError", "DWARFError", "KeyError"]
 
 
